@@ -126,7 +126,9 @@ fn main() {
             let mut id = 0usize;
             for w in what.split('+') {
                 match w {
-                    "drop" => for k in 0..n { let t = tmpdir.clone(); let i = id; id += 1; jobs.push(Box::new(move || sv::drop_case(i, k % 2 == 1, &t))); },
+                    "drop" => for k in 0..n { let t = tmpdir.clone(); let i = id; id += 1;
+                        if k % 3 == 2 { jobs.push(Box::new(move || sv::drop_queued_case(i))); }
+                        else { jobs.push(Box::new(move || sv::drop_case(i, k % 2 == 1, &t))); } },
                     "burst" => for k in 0..n { let i = id; id += 1; let sz = [5usize, 16, 4, 8, 40][k % 5]; jobs.push(Box::new(move || sv::burst_case(i, sz))); },
                     // one reclaim case per process (thread counts are per process): n = burst size
                     "reclaim" => { let i = id; id += 1; jobs.push(Box::new(move || sv::reclaim_case(i, n))); },
